@@ -205,7 +205,8 @@ def rule_c(ctx, ix):
     hs = [call_name(c) for c in calls_in(g.node) if call_name(c) in ('pixel2world_single_axis', 'world2pixel_single_axis')]
     ctx.ob(R, g.construct, 'world attribute values are computed with pixel2world_single_axis', bool(hs) and set(hs) == {'pixel2world_single_axis'},
            detail='CoordinateComponent._calculate uses %s' % hs, where=g.where)
-    axes = {unparse(kwarg(c, 'world_axis')) for c in calls_in(g.node) if call_name(c) == 'pixel2world_single_axis' and kwarg(c, 'world_axis') is not None}
+    from ..util import expand_locals as _xl
+    axes = {norm(_xl(g.node, kwarg(c, 'world_axis'))) for c in calls_in(g.node) if call_name(c) == 'pixel2world_single_axis' and kwarg(c, 'world_axis') is not None}
     ctx.ob(R, g.construct + ' axis', 'every helper call asks for the same (converted) axis', len(axes) == 1,
            detail='the helper is called with world_axis in %s' % sorted(axes), where=g.where)
 
